@@ -528,6 +528,10 @@ struct Obs {
     mutable: bool,
     allow: Vec<Vis>,
     perms: Vec<Permissions>,
+    /// the stored allowance / permission records as they are (address -> bytes): the queries hide expired
+    /// allowances, the records are still what admins created
+    raw_allow: BTreeMap<String, Vec<u8>>,
+    raw_perm: BTreeMap<String, Vec<u8>>,
 }
 
 impl Obs {
@@ -642,8 +646,34 @@ impl World {
                 perms.push(Permissions::default());
             }
         }
-        Ok(Obs { admins: al.admins, mutable: al.mutable, allow, perms })
+        let raw = |ns: &str| -> BTreeMap<String, Vec<u8>> {
+            let mut prefix = vec![0u8, ns.len() as u8];
+            prefix.extend_from_slice(ns.as_bytes());
+            self.d.store.data.iter().filter(|(k, _)| k.starts_with(&prefix)).map(|(k, v)| (String::from_utf8_lossy(&k[prefix.len()..]).to_string(), v.clone())).collect()
+        };
+        Ok(Obs { admins: al.admins, mutable: al.mutable, allow, perms, raw_allow: raw("allowances"), raw_perm: raw("permissions") })
     }
+}
+
+/// Allowance and permission *records* are created or altered only by calls from current admins; the one
+/// exception is a subkey's own successful spending, which rewrites its own allowance record.
+fn check_records_only_by_admins(prop: &str, w: &World, s: &Step, ok: bool, pre: &Obs, post: &Obs, at: &str) -> Result<(), Violation> {
+    let admin = pre.is_admin(w.senders[s.sender].as_str());
+    if ok && admin {
+        return Ok(());
+    }
+    let own = w.senders[s.sender].as_str();
+    for (name, a, b, spending_allowed) in [("allowance", &pre.raw_allow, &post.raw_allow, true), ("permission", &pre.raw_perm, &post.raw_perm, false)] {
+        for k in a.keys().chain(b.keys()) {
+            if a.get(k) != b.get(k) {
+                if spending_allowed && ok && matches!(s.call, Call::Execute(_)) && k == own {
+                    continue;
+                }
+                return Err(v(prop, "record-changed-by-non-admin", format!("{at}: the stored {name} record of {k} was {} in a call that is not a successful call of a current admin (admins {:?})", if b.contains_key(k) { if a.contains_key(k) { "rewritten" } else { "created" } } else { "deleted" }, pre.admins)));
+            }
+        }
+    }
+    Ok(())
 }
 
 fn v(prop: &str, sig: &str, msg: String) -> Violation {
@@ -965,7 +995,8 @@ pub fn run_case(prop: &str, case: &Case, ctx: &mut CaseCtx) -> Result<(), Violat
     // allowance or permission for anybody (whoever instantiated it, with whatever coins attached)
     {
         let fresh = (0..N_SENDERS).all(|i| pre.allow[i] == Vis::none());
-        if pre.admins != init_admins || pre.mutable != case.mutable || !fresh {
+        let as_set = |l: &[String]| l.iter().cloned().collect::<BTreeSet<String>>();
+        if as_set(&pre.admins) != as_set(&init_admins) || pre.mutable != case.mutable || !fresh || !pre.raw_allow.is_empty() || !pre.raw_perm.is_empty() {
             return Err(v(prop, "instantiate-not-as-requested", format!("after instantiate by sender{} with funds {:?}: admins {:?} (requested {:?}), mutable {} (requested {}), allowances {:?}", case.creator as usize % N_SENDERS, case.init_funds, pre.admins, init_admins, pre.mutable, case.mutable, pre.allow)));
         }
     }
@@ -993,7 +1024,7 @@ pub fn run_case(prop: &str, case: &Case, ctx: &mut CaseCtx) -> Result<(), Violat
                 let r = w.d.tx(|deps, env| cw1_subkeys::contract::migrate(deps, env, Empty {}));
                 let post = w.observe().map_err(qerr)?;
                 ctx.count(if r.is_ok() { "op_Upgrade_ok" } else { "op_Upgrade_fail" });
-                if post.admins != pre.admins || post.mutable != pre.mutable || post.perms != pre.perms || post.allow != pre.allow {
+                if post.admins != pre.admins || post.mutable != pre.mutable || post.perms != pre.perms || post.allow != pre.allow || post.raw_allow != pre.raw_allow || post.raw_perm != pre.raw_perm {
                     return Err(v(prop, "upgrade-changed-state", format!("step {step_no} Upgrade(from {version}) -> {:?}: a migration changed the admin list, allowances or permissions: admins {:?} -> {:?}, allowances {:?} -> {:?}, permissions {:?} -> {:?}", r.map(|_| ()), pre.admins, post.admins, pre.allow, post.allow, pre.perms, post.perms)));
                 }
                 pre = post;
@@ -1106,15 +1137,8 @@ pub fn run_case(prop: &str, case: &Case, ctx: &mut CaseCtx) -> Result<(), Violat
             return Err(v(prop, "failed-call-changed-state", format!("{at}: harness rollback broken?")));
         }
 
-        // an allowance that ran out stays dead until an admin gives it a new deadline: a top-up without
-        // `expires` is refused (SettingExpiredAllowance). If it goes through, the deadline the admins had set
-        // was lifted by something other than an admin's grant (the stored entry was altered or dropped).
-        if ok && matches!(prop, "C07" | "C08" | "C17") {
-            if let (Call::Increase { exp: None, .. }, Some(x)) = (&step.call, step.target) {
-                if t.expired_now.contains(&x) {
-                    return Err(v(prop, "grant-revived-expired-allowance", format!("{at}: the allowance of sender{x} had expired and no admin call changed it since, yet an IncreaseAllowance without `expires` was accepted (allowance now {:?})", post.allow[x])));
-                }
-            }
+        if matches!(prop, "C08" | "C17") {
+            check_records_only_by_admins(prop, &w, &step, ok, &pre, &post, &at)?;
         }
 
         match prop {
@@ -1236,7 +1260,9 @@ fn u256(x: u128) -> Uint256 {
 /// statements means: member of the list the last successful UpdateAdmins installed).
 fn check_update_admins_applied(prop: &str, s: &Step, ok: bool, post: &Obs, at: &str) -> Result<(), Violation> {
     if let (true, Call::UpdateAdmins(list)) = (ok, &s.call) {
-        if post.admins != *list {
+        // (as sets: how the list is spelled out in storage - order, repeats - is not the property's business)
+        let as_set = |l: &[String]| l.iter().cloned().collect::<BTreeSet<String>>();
+        if as_set(&post.admins) != as_set(list) {
             return Err(v(prop, "update-admins-not-applied", format!("{at}: UpdateAdmins({:?}) succeeded but AdminList reports {:?}", list, post.admins)));
         }
     }
